@@ -23,7 +23,7 @@ LEVEL_TEXT = ("seeded search over (selector, recipient scalar class, session-key
               "the clause about BALTECH's published keys is decided through the observed ephemeral scalar; sampling")
 LEVEL_NOTE = ("oracle uses the scalar observed through register_PrivateEccKey, never one predicted from RNG bytes; RefP256 "
               "validated against published vectors and openssl pkeyutl -derive")
-RUNS = {"quick": 6000, "thorough": 200000}
+RUNS = {"quick": 6000, "thorough": 120000}
 RULE = ("per run one ECC auth block: selector 0-3 x {default recipient, explicit recipient with random or edge scalar "
         "1,2,n-2,n-1} x session key (random / trailing zeros) x ephemeral draw (random / forced edge scalar / first draw "
         ">= n forcing a retry), optionally one fault in the point bytes (bit flip, coordinate >= p, zero point, twist point, "
